@@ -22,7 +22,7 @@ ASSUMPTIONS = ["views compared to 1e-12 relative (same code on the same stored d
                "the stored definition is read through the uncached accessors (ctrlptsw / ctrlpts of non-rational shapes, knotvector, delta)"]
 
 SLUG_CONT = "C12-container-cache-vs-element-edit"
-VIEWS = ["ctrlpts", "weights", "ctrlpts2d", "evalpts", "bbox", "sample_size", "data", "tess", "single"]
+VIEWS = ["ctrlpts", "weights", "ctrlpts2d", "evalpts", "bbox", "sample_size", "data", "tess", "single", "bezier"]
 
 
 # ------------------------------------------------------------------------------------------------ helpers
@@ -92,6 +92,11 @@ def read_view(obj, view):
             return None
         obj.tessellate()
         return [[v.id, list(v.uv), list(v.data)] for v in obj.vertices], [list(f.data) for f in obj.faces]
+    if view == "bezier":
+        # derived from the definition by the library: the Bezier segments of a curve
+        if pd != 1 or obj.ctrlpts_size > 9:
+            return None
+        return [build.stored_points(c) for c in operations.decompose_curve(obj)]
     if view == "single":
         dom = [obj.domain] if pd == 1 else list(obj.domain)
         mid = [a + (b - a) * 0.375 for a, b in dom]
@@ -111,7 +116,7 @@ def compare_views(ctx, obj, norm, views, what, tagp="stale"):
 
 # ------------------------------------------------------------------------------------------------ object histories
 MUTATORS = ["setP", "setPw", "setW", "setkv", "delta", "sample", "insert", "refine", "remove", "reverse", "transpose", "flip",
-            "translate", "rotate", "scale", "redefine", "copy_edit", "ops_copy", "evaluate_range", "noop"]
+            "translate", "rotate", "scale", "redefine", "copy_edit", "ops_copy", "evaluate_range", "degree", "noop"]
 
 
 @st.composite
@@ -347,19 +352,42 @@ def apply_mutator(obj, s, st_, ctx):
         return obj, m
     if m == "ops_copy":
         before = {v: read_view(obj, v) for v in ("ctrlpts", "evalpts")}
-        r = operations.translate(obj, s["vec"][:dim])
-        ctx.check(r is not obj, "ops-copy-returned-input", "operations.translate without inplace returned its input")
-        compare_views(ctx, r, norm, s["views"] or ["ctrlpts", "evalpts", "bbox"], "translated copy", "copy-stale")
+        which = s["ints"][2] % 3
+        if which == 0:
+            r, what = operations.translate(obj, s["vec"][:dim]), "translate"
+        elif which == 1:
+            ang = [360.0, 0.0, 90.0, -720.0][s["ints"][3] % 4]
+            r, what = operations.rotate(obj, ang, axis=s["ints"][4] % 3), "rotate(%r)" % ang
+        else:
+            mult = [1.0, 2.0][s["ints"][3] % 2]
+            r, what = operations.scale(obj, mult), "scale(%r)" % mult
+        ctx.check(r is not obj, "ops-copy-returned-input", "operations.%s without inplace returned its input" % what)
+        compare_views(ctx, r, norm, s["views"] or ["ctrlpts", "evalpts", "bbox"], "copy returned by %s" % what, "copy-stale")
         for v, val in before.items():
-            ctx.check(_deep_eq(read_view(obj, v), val), "copy-not-independent", "translating without inplace changed view '%s' of the input" % v)
+            ctx.check(_deep_eq(read_view(obj, v), val), "copy-not-independent", "%s without inplace changed view '%s' of the input" % (what, v))
+        # the returned shape is a copy: editing it leaves the input alone
+        r.ctrlpts = _pts(count, dim, s["ints"][0] + 17)
+        for v, val in before.items():
+            ctx.check(_deep_eq(read_view(obj, v), val), "copy-not-independent", "editing the shape returned by %s (no inplace) changed view '%s' of the input" % (what, v))
         return obj, m
     if m == "evaluate_range":
-        # an explicit sub-range evaluation replaces the sampled points; a later full read must not keep the partial grid
-        if pd != 1:
+        # an explicit sub-range evaluation replaces the sampled points; a later full evaluation must not keep the partial grid
+        if pd == 1:
+            a, b = obj.domain
+            obj.evaluate(start=a, stop=a + (b - a) * 0.5)
+        elif pd == 2:
+            (a, b), (c_, d_) = obj.domain
+            obj.evaluate(start_u=a, stop_u=a + (b - a) * 0.5, start_v=c_ + (d_ - c_) * 0.25, stop_v=d_)
+        else:
             return obj, None
-        a, b = obj.domain
-        obj.evaluate(start=a, stop=a + (b - a) * 0.5)
         obj.evaluate()
+        return obj, m
+    if m == "degree":
+        # degree elevation / reduction of a one-segment (Bezier) curve through the operations layer
+        if pd != 1 or szs[0] != degs[0] + 1 or degs[0] >= 6:
+            return obj, None
+        operations.degree_operations(obj, [-1 if (s["ints"][0] % 3 == 0 and degs[0] >= 2) else 1 + s["ints"][1] % 2])
+        st_["ledger"] = []
         return obj, m
     return obj, None
 
